@@ -194,6 +194,7 @@ type RunOpts struct {
 	NoSnapshots    bool               // skip Pre snapshots / post-state comparison
 	OnEvent        func(ev string)    // observer of the unified event log
 	KB             *ast.KnowledgeBase // reuse this instance instead of creating one
+	CloneOrd       int                // order in which NewKnowledgeBaseInstance clones the rules (see Built.InstanceOrd)
 	DefaultChoice  int                // order choice used beyond Choices (clamped to the number of permutations)
 	CountReads     string             // when set ("F.P->V"): leaf reads of that accessor are logged as events "read:<key>"
 }
@@ -417,7 +418,7 @@ func Run(b *Built, w *ref.World, opts RunOpts) *Trace {
 	kb := opts.KB
 	if kb == nil {
 		var err error
-		kb, err = b.Instance()
+		kb, err = b.InstanceOrd(opts.CloneOrd)
 		if err != nil {
 			tr.Err = fmt.Errorf("instance: %w", err)
 			tr.Protocol = append(tr.Protocol, "NewKnowledgeBaseInstance failed: "+err.Error())
@@ -715,6 +716,9 @@ type PollCtx struct {
 	flipped bool
 	done    chan struct{}
 	OnFlip  func()
+	// DeadlineAt, if set, is what Deadline() reports (a context WITH a deadline that is cancelled
+	// before the deadline arrives; the harness never waits for it)
+	DeadlineAt time.Time
 }
 
 func NewPollCtx(flipAt int, cause error) *PollCtx {
@@ -724,7 +728,7 @@ func NewPollCtx(flipAt int, cause error) *PollCtx {
 	return &PollCtx{FlipAt: flipAt, Cause: cause, done: make(chan struct{})}
 }
 
-func (c *PollCtx) Deadline() (time.Time, bool)       { return time.Time{}, false }
+func (c *PollCtx) Deadline() (time.Time, bool)       { return c.DeadlineAt, !c.DeadlineAt.IsZero() }
 func (c *PollCtx) Done() <-chan struct{}             { return c.done }
 func (c *PollCtx) Value(key interface{}) interface{} { return nil }
 func (c *PollCtx) Flipped() bool                     { return c.flipped }
